@@ -111,6 +111,7 @@ func run(t *rapid.T, persistent bool) {
 	c.ClassIf(allocFailures > 0, "allocation_failed_during_history")
 	c.ClassIf(heldAcross > 0, "read_held_across_rotation")
 	c.ClassIf(h.FaultsInjected > 0, "faults_injected")
+	c.ClassIf(h.FinalSyncFaults > 0, "final_shutdown_sync_fails_after_upload_acked_during_first_shutdown_sync")
 	c.ClassIf(w.Flags["held_refresh_target_rotated_away"] > 0, "held_refresh_target_rotated_away")
 	c.ClassIf(h.RotationsDuringSlicing > 0, "rotation_during_composite_slicing")
 	c.ClassIf(h.OverlappedFindMissing > 0, "findmissing_waited_for_refresh_lock_during_uploads")
